@@ -96,8 +96,10 @@ def audit(prop):
             cur = m.group(1); res["axioms"][cur] = []; continue
         if cur is None:
             continue
-        m = re.match(r"^([A-Za-z_][A-Za-z0-9_.']*)\s*:", line)
-        if m and not line.startswith(" "):
+        # an axiom is listed as "name : type" or, when the type is long, as "name" alone with the type
+        # on the following (indented) lines
+        m = re.match(r"^([A-Za-z_][A-Za-z0-9_.']*)\s*(:|$)", line)
+        if m and not line.startswith(" ") and m.group(1) != "Axioms":   # "Axioms:" is the header line
             res["axioms"][cur].append(m.group(1))
     bad = []
     for t, axs in res["axioms"].items():
@@ -145,7 +147,12 @@ def build_harness(release=False):
         shutil.copy(lock_src, lock_dst)
     cmd = "timeout 1500 cargo build --offline" + (" --release" if release else "")
     rc, out = sh(cmd, cwd=os.path.join(VERIF, "harness"), timeout=1530)
-    errs = "\n".join(l for l in out.splitlines() if l.startswith("error") or "-->" in l)[-3000:]
+    lines = out.splitlines()
+    keep = []
+    for k, l in enumerate(lines):
+        if l.startswith("error"):
+            keep += lines[k:k + 8]
+    errs = "\n".join(keep)[-3000:]
     return rc == 0, errs if rc != 0 else ""
 
 def harness_bin(release=False):
